@@ -6,6 +6,7 @@ import pyglove as pg
 from hypothesis import strategies as st
 
 from pgverif import core
+from pgverif.props import c01
 from pgverif.gen import classes
 from pgverif.gen import treeops
 from pgverif.gen import values
@@ -188,17 +189,18 @@ class Snap:
     self.nodes = {}
     self.order = []
     for ri, root in enumerate(roots):
-      stack = [(root, None)]
+      stack = [(root, None, [])]
       while stack:
-        n, pid = stack.pop()
+        n, pid, true_path = stack.pop()
         if id(n) in self.nodes:
           continue
         kids = [(k, v) for k, v in n.sym_items()]
-        self.nodes[id(n)] = (n, ri, list(n.sym_path.keys), kids, pid)
+        # (the path is the one walked from the root, not the one the node reports)
+        self.nodes[id(n)] = (n, ri, true_path, kids, pid)
         self.order.append(id(n))
-        for _, v in kids:
+        for k, v in kids:
           if isinstance(v, pg.Symbolic):
-            stack.append((v, id(n)))
+            stack.append((v, id(n), true_path + [k]))
 
   def chain(self, nid):
     """ids of the node and its ancestors, nearest first."""
@@ -398,6 +400,19 @@ def check_events(name, out, pre, post, log, enabled):
       mine[tuple((type(x).__name__, x) for x in u.path.keys)] = u
     abs_payload[id(r)] = (rpath, mine)
 
+  # reported locations are true locations: the path of an update leads from the root to the written container
+  # (skipped when the call changed the length of some list: coordinates inside such a batch are not pinned down)
+  resized = any(isinstance(pre.nodes[c][0], pg.List) and len(pre.kids(c)) != len(post.kids(c)) for c in changed)
+  if not resized and not lost:
+    for rid, (rpath, mine) in abs_payload.items():
+      for ap, u in mine.items():
+        tid = id(u.target)
+        if tid in pre.nodes and tid in post.nodes and pre.nodes[tid][2] == post.nodes[tid][2]:
+          want = post.nodes[tid][2]
+          if list(u.path.keys[:-1]) != want and isinstance(u.target, (pg.Dict, pg.List)):
+            return 'payload-path-untrue', 'update reported at %r, the written container is at %r' % (str(u.path), want)
+          if isinstance(u.target, pg.Object) and list(u.path.keys[:-1]) != want:
+            return 'payload-path-untrue', 'update reported at %r, the written object is at %r' % (str(u.path), want)
   # true old / new values, per written container
   for rid, (rpath, mine) in abs_payload.items():
     per_list = {}
@@ -574,6 +589,11 @@ def execute(case):
       res.label('disabled')
       tainted = True
     post = Snap(roots)
+    inv, detail = c01.walk_check(roots)
+    if inv is not None:
+      # events carry paths: a tree whose nodes report wrong paths cannot deliver true locations
+      return res.violate('after the call the tree is not well-formed: %s | op=%s' % (detail, treeops.describe(op)),
+                         law='tree-integrity', inv=inv, op=name, **({'nf': '1'} if op.get('nf') else {}))
     sig = {'op': name}
     if op.get('nf'):
       sig['nf'] = '1'
